@@ -367,4 +367,66 @@ def rdivC {α : Type} (o : NumOps α) (t : TP α) (c : α) : Except Err (Val α)
 def isetV {α : Type} (o : NumOps α) (t : TP α) (f : α → α) : TP α × Res :=
   setPars o t (some (t.v.map f)) none none none none false
 
+/-! ### Array identity: WHICH ndarray objects `v` and `values` are
+
+`TimePar.__init__` / `set(v=arr)` bind the caller's array object itself; `update_values` REBINDS `self.values` to a newly
+allocated array (`self.v*self.factor`, `v.copy()` followed by writes into that copy); `to()` ends with `new.v = new.values`,
+so the converted object's `v` and `values` are one and the same array until its next update; `x * c` etc. build a new `v`
+(`self.v * other`) and update.  `asnew()` shares `v` with the receiver and copies `values`; every caller (`to`, arithmetic)
+rebinds both before returning, so that copy is never observable and is not allocated here.
+
+The store is the list of arrays allocated so far (an array's identity is its position). -/
+
+abbrev Store (α : Type) := List (List α)
+
+def readBuf {α : Type} (s : Store α) (i : Nat) : List α := (s[i]?).getD []
+
+/-- the two array references of a TimePar whose value is an array -/
+structure ARef where
+  vId : Nat
+  valuesId : Option Nat
+  deriving DecidableEq, Repr
+
+/-- calls on an array-valued, initialised TimePar, by what they do to the arrays (`f` = the elementwise conversion
+    `convElem o kind factor` of the moment, `g` = the arithmetic applied to `v`) -/
+inductive AOp (α : Type) where
+  /-- `init`, `set(parent_dt=…)`, `update_cached()`: `update_values` -/
+  | upd (f : α → α)
+  /-- `set(v=arr)`: bind the caller's array, then `update_values` -/
+  | setV (l : List α) (f : α → α)
+  /-- `cur = cur.to(…)` / `cur.to_parent()`: the result's `v` IS its `values` -/
+  | conv (f : α → α)
+  /-- `cur = cur * c`, `c * cur`, `cur / c`, `-cur`: new `v`, then `update_values` -/
+  | arith (g f : α → α)
+
+def AOp.step {α : Type} (s : Store α) (ob : ARef) : AOp α → Store α × ARef
+  | .upd f => (s ++ [(readBuf s ob.vId).map f], { ob with valuesId := some s.length })
+  | .setV l f => (s ++ [l, l.map f], { vId := s.length, valuesId := some (s.length + 1) })
+  | .conv f => (s ++ [(readBuf s ob.vId).map f], { vId := s.length, valuesId := some s.length })
+  | .arith g f => (s ++ [(readBuf s ob.vId).map g, ((readBuf s ob.vId).map g).map f], { vId := s.length, valuesId := some (s.length + 1) })
+
+def runOps {α : Type} : List (AOp α) → Store α × ARef → Store α × ARef
+  | [], x => x
+  | op :: ops, x => runOps ops (op.step x.1 x.2)
+
+/-- the calls that only (re-)link the object to a parent: `init`, `set(parent_…)`, `update_cached` -/
+def AOp.isUpd {α : Type} : AOp α → Bool
+  | .upd _ => true
+  | _ => false
+
+/-- the `v` reference of the current object names an allocated array -/
+def ARef.wf {α : Type} (x : Store α × ARef) : Prop := x.2.vId < x.1.length
+
+instance {α : Type} (x : Store α × ARef) : Decidable (ARef.wf x) := by unfold ARef.wf; exact inferInstance
+
+/-- a new object around the caller's array -/
+def newArr {α : Type} (l : List α) : Store α × ARef := ([l], { vId := 0, valuesId := none })
+
+/-- NOT what the code does (kept to show what the theorems about the store rest on, `Props/C06:
+    C06_inplace_update_counterexample`): `update_values` writing its result into the existing `values` array -/
+def updInPlace {α : Type} (s : Store α) (ob : ARef) (f : α → α) : Store α × ARef :=
+  match ob.valuesId with
+  | some j => (s.set j ((readBuf s ob.vId).map f), ob)
+  | none => AOp.step s ob (.upd f)
+
 end StarsimModel.TimePar
